@@ -165,7 +165,11 @@ class OfxgetWorld:
                     out.append(out[ch.pick(label + ".dupof", len(out))])      # the same account twice
                     continue
                 ln = 1 + ch.geometric(label + ".idlen", 4, 21)      # ids up to 22 characters
-                out.append("".join(ACCT_ALPHA[ch.pick(label + ".ch", len(ACCT_ALPHA))] for _ in range(ln)))
+                aid = "".join(ACCT_ALPHA[ch.pick(label + ".ch", len(ACCT_ALPHA))] for _ in range(ln))
+                if ln >= 3 and ch.flag(label + ".blank", 0.1):
+                    k = 1 + ch.pick(label + ".blank.at", ln - 2)     # a formatted number: "0012 345678"
+                    aid = aid[:k] + " " + aid[k + 1:]
+                out.append(aid)
             return out
         pool = POOL[opt]
         if opt == "clientuid" and label == "cli" and self.default_clientuid and ch.flag("cli.clientuid.is_default", 0.35):
